@@ -1,4 +1,5 @@
 import Utv.Lemmas.C10Call
+import Utv.Lemmas.C10Fuel
 /-!
 C10 — collecting errors changes reporting only, never the verdict or the value.
 
@@ -62,80 +63,114 @@ theorem C10_accept_iff_no_report (W : World) (fuel : Nat) (decl : List FieldDecl
   | nil => rfl
   | cons e es => rfl
 
-/-- "item `i` fails on its own" (the declaration and the input restricted to `i` are rejected fail-fast),
-in terms of the reports of that restricted parse -/
+/-- "item `i` fails on its own" (the declaration and the input restricted to `i` are rejected fail-fast by the
+item-level parse), in terms of the reports of that restricted parse -/
 theorem failsAlone_iff (W : World) (fuel : Nat) (decl : List FieldDecl) (o : Opts) (data : Data) (i : String) :
     failsAlone W fuel decl o data i =
-      (isItem decl data i && !(reports (parse W fuel) .ff o (declOf decl i) (dataOf data i)).isEmpty) := by
-  unfold failsAlone
-  rw [C10_accept_iff_no_report]
+      (isItem decl data i && !(reportsX (parse W fuel) .ff o (declOf decl i) [] false (dataOf data i)).isEmpty) :=
+  failsAloneX_iff W fuel decl [] o data i
 
-/-- For a rejected input the (uncapped) collected error names exactly the failing top-level items:
-every reported error names an item that fails on its own (no valid item is reported), and every item
-that fails on its own is named by some reported error.  -/
+/-- every error of the uncapped report either names an item that fails on its own or is an error of the whole
+mapping (`globalReports`: ParamsExceedError, ParamsLackError, DependenciesAbsenceError) -/
+theorem reports_sound (W : World) (fuel : Nat) (decl : List FieldDecl) (ex : List String) (o : Opts) (data : Data)
+    (e : Err) (he : e ∈ reportsX (parse W fuel) .ff o decl ex true data) :
+    (∃ i, e.item = some i ∧ failsAloneX W fuel decl ex o data i = true) ∨
+      e ∈ globalReports (parse W fuel) .ff o decl ex data := by
+  rcases (mem_reportsX_true (parse W fuel) .ff o decl ex data e).mp he with hg | hi
+  · exact Or.inr hg
+  · left
+    obtain ⟨i, h1, h2, h3⟩ := reportsX_sound (parse W fuel) .ff o decl ex data e hi
+    refine ⟨i, h1, ?_⟩
+    rw [failsAloneX_iff, h2]
+    cases hr : reportsX (parse W fuel) .ff o (declOf decl i) ex false (dataOf data i) with
+    | nil => exact absurd hr h3
+    | cons a as => rfl
+
+theorem reports_complete (W : World) (fuel : Nat) (decl : List FieldDecl) (ex : List String) (o : Opts) (data : Data)
+    (i : String) (hi : failsAloneX W fuel decl ex o data i = true) :
+    ∃ e ∈ reportsX (parse W fuel) .ff o decl ex true data, e.item = some i := by
+  rw [failsAloneX_iff] at hi
+  simp only [Bool.and_eq_true, Bool.not_eq_true', List.isEmpty_eq_false_iff] at hi
+  obtain ⟨e, he, hei⟩ := reportsX_complete (parse W fuel) .ff o decl ex data i hi.2
+  exact ⟨e, (mem_reportsX_true (parse W fuel) .ff o decl ex data e).mpr (Or.inr he), hei⟩
+
+/-- For a rejected input the (uncapped) collected error names exactly the failing top-level items — every
+error that names an item names one that fails on its own (no valid item is reported), every item that fails on
+its own is named — and, besides, carries exactly the errors of the whole mapping (`globalReports`: too many /
+too few keys, a demanded dependency not given), which name no item. -/
 theorem C10_reported_eq_failing (W : World) (fuel : Nat) (decl : List FieldDecl) (o : Opts) (data : Data) (x : Exc)
     (h : run W fuel decl ⟨true, none⟩ o data = .error x) :
     ∃ es, x = .collected es ∧
-      (∀ e ∈ es, ∃ i, e.item = some i ∧ failsAlone W fuel decl o data i = true) ∧
-      (∀ i, failsAlone W fuel decl o data i = true → ∃ e ∈ es, e.item = some i) := by
+      (∀ e ∈ es, (∃ i, e.item = some i ∧ failsAlone W fuel decl o data i = true) ∨
+        e ∈ globalReports (parse W fuel) .ff o decl [] data) ∧
+      (∀ i, failsAlone W fuel decl o data i = true → ∃ e ∈ es, e.item = some i) ∧
+      (∀ e ∈ globalReports (parse W fuel) .ff o decl [] data, e ∈ es) := by
   obtain ⟨hx, _⟩ := C10_one_exception W fuel decl none trivial o data x h
-  refine ⟨_, hx, ?_, ?_⟩
-  · intro e he
-    obtain ⟨i, h1, h2, h3⟩ := reports_sound (parse W fuel) .ff o decl data e he
-    refine ⟨i, h1, ?_⟩
-    rw [failsAlone_iff, h2]
-    cases hr : reports (parse W fuel) .ff o (declOf decl i) (dataOf data i) with
-    | nil => exact absurd hr h3
-    | cons a as => rfl
-  · intro i hi
-    rw [failsAlone_iff] at hi
-    simp only [Bool.and_eq_true, Bool.not_eq_true', List.isEmpty_eq_false_iff] at hi
-    exact reports_complete (parse W fuel) .ff o decl data i hi.2
+  refine ⟨_, hx, fun e he => reports_sound W fuel decl [] o data e he,
+    fun i hi => reports_complete W fuel decl [] o data i hi, fun e he => ?_⟩
+  exact (mem_reportsX_true (parse W fuel) .ff o decl [] data e).mpr (Or.inl he)
+
+/-- The errors of the (uncapped) report that name no item are exactly the errors of the whole mapping. -/
+theorem C10_itemless_errors (W : World) (fuel : Nat) (decl : List FieldDecl) (o : Opts) (data : Data) (x : Exc)
+    (h : run W fuel decl ⟨true, none⟩ o data = .error x) :
+    ∃ es, x = .collected es ∧
+      ∀ e ∈ es, e.item = none ↔ e ∈ globalReports (parse W fuel) .ff o decl [] data := by
+  obtain ⟨hx, _⟩ := C10_one_exception W fuel decl none trivial o data x h
+  refine ⟨_, hx, fun e he => ⟨fun hn => ?_, fun hg => globalReports_item _ _ _ _ _ _ e hg⟩⟩
+  rcases reports_sound W fuel decl [] o data e he with ⟨i, hi, _⟩ | hg
+  · rw [hn] at hi; cases hi
+  · exact hg
 
 /-- With `max_errors = k` the collected error carries at most `k` errors, each naming an item that
-fails on its own. -/
-theorem C10_capped_reports_failing (W : World) (fuel : Nat) (decl : List FieldDecl) (k : Nat) (hk : 0 < k) (o : Opts) (data : Data) (x : Exc)
-    (h : run W fuel decl ⟨true, some k⟩ o data = .error x) :
+fails on its own or being an error of the whole mapping. -/
+theorem C10_capped_reports_failing (W : World) (fuel : Nat) (decl : List FieldDecl) (k : Nat) (hk : 0 < k)
+    (o : Opts) (data : Data) (x : Exc) (h : run W fuel decl ⟨true, some k⟩ o data = .error x) :
     ∃ es, x = .collected es ∧ es.length ≤ k ∧
-      ∀ e ∈ es, ∃ i, e.item = some i ∧ failsAlone W fuel decl o data i = true := by
+      ∀ e ∈ es, (∃ i, e.item = some i ∧ failsAlone W fuel decl o data i = true) ∨
+        e ∈ globalReports (parse W fuel) .ff o decl [] data := by
   obtain ⟨hx, _⟩ := C10_one_exception W fuel decl (some k) hk o data x h
   refine ⟨_, hx, by simp [cap, List.length_take, Nat.min_le_left], ?_⟩
   intro e he
-  have he' : e ∈ reports (parse W fuel) .ff o decl data := List.mem_of_mem_take he
-  obtain ⟨i, h1, h2, h3⟩ := reports_sound (parse W fuel) .ff o decl data e he'
-  refine ⟨i, h1, ?_⟩
-  rw [failsAlone_iff, h2]
-  cases hr : reports (parse W fuel) .ff o (declOf decl i) (dataOf data i) with
-  | nil => exact absurd hr h3
-  | cons a as => rfl
+  exact reports_sound W fuel decl [] o data e (List.mem_of_mem_take he)
 
-/-- An input is accepted (in either mode) iff no top-level item fails on its own. -/
+/-- An input is accepted (in either mode) iff no top-level item fails on its own and the mapping as a whole
+has nothing to report. -/
 theorem C10_accept_iff_none_fails (W : World) (fuel : Nat) (decl : List FieldDecl) (o : Opts) (data : Data) :
-    isError (run W fuel decl .ff o data) = false ↔ ∀ i, failsAlone W fuel decl o data i = false := by
+    isError (run W fuel decl .ff o data) = false ↔
+      (∀ i, failsAlone W fuel decl o data i = false) ∧ globalReports (parse W fuel) .ff o decl [] data = [] := by
   rw [C10_accept_iff_no_report]
+  unfold reports
   constructor
-  · intro h i
-    cases hf : failsAlone W fuel decl o data i with
-    | false => rfl
-    | true =>
-      exfalso
-      rw [failsAlone_iff] at hf
-      simp only [Bool.and_eq_true, Bool.not_eq_true', List.isEmpty_eq_false_iff] at hf
-      obtain ⟨e, he, _⟩ := reports_complete (parse W fuel) .ff o decl data i hf.2
-      simp only [Bool.not_eq_false', List.isEmpty_iff] at h
-      rw [h] at he
-      cases he
   · intro h
-    cases hr : reports (parse W fuel) .ff o decl data with
+    simp only [Bool.not_eq_false', List.isEmpty_iff] at h
+    constructor
+    · intro i
+      cases hf : failsAlone W fuel decl o data i with
+      | false => rfl
+      | true =>
+        exfalso
+        obtain ⟨e, he, _⟩ := reports_complete W fuel decl [] o data i hf
+        rw [h] at he
+        cases he
+    · cases hg : globalReports (parse W fuel) .ff o decl [] data with
+      | nil => rfl
+      | cons e es =>
+        exfalso
+        have := (mem_reportsX_true (parse W fuel) .ff o decl [] data e).mpr (Or.inl (by rw [hg]; exact List.mem_cons_self))
+        rw [h] at this
+        cases this
+  · rintro ⟨h1, h2⟩
+    cases hr : reportsX (parse W fuel) .ff o decl [] true data with
     | nil => rfl
     | cons e es =>
       exfalso
-      obtain ⟨i, h1, h2, h3⟩ := reports_sound (parse W fuel) .ff o decl data e (by rw [hr]; exact List.mem_cons_self)
-      have := h i
-      rw [failsAlone_iff, h2] at this
-      cases hri : reports (parse W fuel) .ff o (declOf decl i) (dataOf data i) with
-      | nil => exact h3 hri
-      | cons a as => rw [hri] at this; simp at this
+      rcases reports_sound W fuel decl [] o data e (by rw [hr]; exact List.mem_cons_self) with ⟨i, _, hi⟩ | hg
+      · have := h1 i
+        unfold failsAlone at this
+        rw [this] at hi
+        cases hi
+      · rw [h2] at hg
+        cases hg
 
 /-! ### calls with positional arguments (`FunctionParser.parse_params`) -/
 
@@ -176,27 +211,32 @@ theorem C10_call_count_le_max (W : World) (fuel : Nat) (sg : Sig) (k : Nat) (hk 
   obtain ⟨hx, _⟩ := C10_call_one_exception W fuel sg (some k) hk o args kwargs x h
   exact ⟨_, hx, by simp [cap, List.length_take, Nat.min_le_left]⟩
 
-/-- every error of the uncapped collecting call names an item that fails on its own … -/
+/-- the errors of the whole keyword mapping of a call -/
+def callGlobal (W : World) (fuel : Nat) (sg : Sig) (o : Opts) (args : List Val) (kwargs : Data) : List Err :=
+  globalReports (parse W fuel) .ff o sg.decl (givenPos sg args) kwargs
+
+/-- every error of the uncapped collecting call names an item that fails on its own, or belongs to the keyword
+mapping as a whole … -/
 theorem callReports_sound (W : World) (fuel : Nat) (sg : Sig) (o : Opts) (args : List Val) (kwargs : Data) (e : Err)
     (he : e ∈ callReports (parse W fuel) .ff o sg args kwargs) :
-    ∃ i, e.item = some i ∧ callFails W fuel sg o args kwargs i = true := by
+    (∃ i, e.item = some i ∧ callFails W fuel sg o args kwargs i = true) ∨ e ∈ callGlobal W fuel sg o args kwargs := by
   unfold callReports at he
   rw [posFin_keys] at he
   rcases List.mem_append.mp he with he | he
-  · rw [posReports_eq] at he
+  · left
+    rw [posReports_eq] at he
     obtain ⟨it, hit, hre⟩ := List.mem_filterMap.mp he
     obtain ⟨i, h1, h2⟩ := (posRep_posFailing W fuel sg o it).1 e hre
     refine ⟨i, h1, ?_⟩
     unfold callFails
     simp only [Bool.or_eq_true, List.any_eq_true, beq_iff_eq]
     left; exact ⟨it, hit, h2⟩
-  · obtain ⟨i, h1, h2, h3⟩ := reportsX_sound (parse W fuel) .ff o sg.decl (givenPos sg args) kwargs e he
-    refine ⟨i, h1, ?_⟩
-    unfold callFails
-    rw [failsAloneX_iff, h2]
-    cases hr : reportsX (parse W fuel) .ff o (declOf sg.decl i) (givenPos sg args) (dataOf kwargs i) with
-    | nil => exact absurd hr h3
-    | cons a as => simp
+  · rcases reports_sound W fuel sg.decl (givenPos sg args) o kwargs e he with ⟨i, h1, h2⟩ | hg
+    · left
+      refine ⟨i, h1, ?_⟩
+      unfold callFails
+      rw [h2]; simp
+    · exact Or.inr hg
 
 /-- … and every item that fails on its own is named by one of them -/
 theorem callReports_complete (W : World) (fuel : Nat) (sg : Sig) (o : Opts) (args : List Val) (kwargs : Data)
@@ -211,57 +251,95 @@ theorem callReports_complete (W : World) (fuel : Nat) (sg : Sig) (o : Opts) (arg
     refine ⟨e, List.mem_append.mpr (Or.inl ?_), hei⟩
     rw [posReports_eq]
     exact List.mem_filterMap.mpr ⟨it, hit, he⟩
-  · rw [failsAloneX_iff] at hi
-    simp only [Bool.and_eq_true, Bool.not_eq_true', List.isEmpty_eq_false_iff] at hi
-    obtain ⟨e, he, hei⟩ := reportsX_complete (parse W fuel) .ff o sg.decl (givenPos sg args) kwargs i hi.2
+  · obtain ⟨e, he, hei⟩ := reports_complete W fuel sg.decl (givenPos sg args) o kwargs i hi
     exact ⟨e, List.mem_append.mpr (Or.inr he), hei⟩
 
 /-- For a rejected call the (uncapped) collected error names exactly the failing items: a parameter bound to a
 positional argument that is rejected when given alone, an element `*args:j` rejected by the `*args` type, a
-keyword / missing parameter / additional key that fails on its own. -/
+keyword / missing parameter / additional key that fails on its own; plus the errors of the keyword mapping as a
+whole. -/
 theorem C10_call_reported_eq_failing (W : World) (fuel : Nat) (sg : Sig) (o : Opts) (args : List Val)
     (kwargs : Data) (x : Exc) (h : runCall W fuel sg ⟨true, none⟩ o args kwargs = .error x) :
     ∃ es, x = .collected es ∧
-      (∀ e ∈ es, ∃ i, e.item = some i ∧ callFails W fuel sg o args kwargs i = true) ∧
+      (∀ e ∈ es, (∃ i, e.item = some i ∧ callFails W fuel sg o args kwargs i = true) ∨
+        e ∈ callGlobal W fuel sg o args kwargs) ∧
       (∀ i, callFails W fuel sg o args kwargs i = true → ∃ e ∈ es, e.item = some i) := by
   obtain ⟨hx, _⟩ := C10_call_one_exception W fuel sg none trivial o args kwargs x h
   exact ⟨_, hx, fun e he => callReports_sound W fuel sg o args kwargs e he,
     fun i hi => callReports_complete W fuel sg o args kwargs i hi⟩
 
-/-- With `max_errors = k`: at most `k` errors, each naming an item of the call that fails on its own. -/
+/-- With `max_errors = k`: at most `k` errors, each naming an item of the call that fails on its own (or an error
+of the keyword mapping as a whole). -/
 theorem C10_call_capped_reports_failing (W : World) (fuel : Nat) (sg : Sig) (k : Nat) (hk : 0 < k) (o : Opts)
     (args : List Val) (kwargs : Data) (x : Exc) (h : runCall W fuel sg ⟨true, some k⟩ o args kwargs = .error x) :
     ∃ es, x = .collected es ∧ es.length ≤ k ∧
-      ∀ e ∈ es, ∃ i, e.item = some i ∧ callFails W fuel sg o args kwargs i = true := by
+      ∀ e ∈ es, (∃ i, e.item = some i ∧ callFails W fuel sg o args kwargs i = true) ∨
+        e ∈ callGlobal W fuel sg o args kwargs := by
   obtain ⟨hx, _⟩ := C10_call_one_exception W fuel sg (some k) hk o args kwargs x h
   refine ⟨_, hx, by simp [cap, List.length_take, Nat.min_le_left], ?_⟩
   intro e he
   exact callReports_sound W fuel sg o args kwargs e (List.mem_of_mem_take he)
 
-/-- A call is accepted (in either mode) iff none of its items fails on its own. -/
+/-- A call is accepted (in either mode) iff none of its items fails on its own and its keyword mapping as a
+whole has nothing to report. -/
 theorem C10_call_accept_iff_none_fails (W : World) (fuel : Nat) (sg : Sig) (o : Opts) (args : List Val)
     (kwargs : Data) :
-    isError (runCall W fuel sg .ff o args kwargs) = false ↔ ∀ i, callFails W fuel sg o args kwargs i = false := by
+    isError (runCall W fuel sg .ff o args kwargs) = false ↔
+      (∀ i, callFails W fuel sg o args kwargs i = false) ∧ callGlobal W fuel sg o args kwargs = [] := by
   rw [C10_call_same_verdict W fuel sg ⟨true, none⟩ o args kwargs, runCall_collect W fuel sg none trivial,
     ← callReports_eq (parse_good W _ fuel)]
   constructor
-  · intro h i
-    cases hf : callFails W fuel sg o args kwargs i with
-    | false => rfl
-    | true =>
-      exfalso
-      obtain ⟨e, he, _⟩ := callReports_complete W fuel sg o args kwargs i hf
-      cases hr : callReports (parse W fuel) .ff o sg args kwargs with
-      | nil => rw [hr] at he; cases he
-      | cons a as => rw [hr] at h; simp [isError] at h
   · intro h
+    have hnil : callReports (parse W fuel) .ff o sg args kwargs = [] := by
+      cases hr : callReports (parse W fuel) .ff o sg args kwargs with
+      | nil => rfl
+      | cons a as => rw [hr] at h; simp [isError] at h
+    constructor
+    · intro i
+      cases hf : callFails W fuel sg o args kwargs i with
+      | false => rfl
+      | true =>
+        exfalso
+        obtain ⟨e, he, _⟩ := callReports_complete W fuel sg o args kwargs i hf
+        rw [hnil] at he; cases he
+    · cases hg : callGlobal W fuel sg o args kwargs with
+      | nil => rfl
+      | cons e es =>
+        exfalso
+        have hm : e ∈ callReports (parse W fuel) .ff o sg args kwargs := by
+          unfold callReports
+          rw [posFin_keys]
+          refine List.mem_append.mpr (Or.inr ?_)
+          exact (mem_reportsX_true (parse W fuel) .ff o sg.decl (givenPos sg args) kwargs e).mpr
+            (Or.inl (by unfold callGlobal at hg; rw [hg]; exact List.mem_cons_self))
+        rw [hnil] at hm; cases hm
+  · rintro ⟨h1, h2⟩
     cases hr : callReports (parse W fuel) .ff o sg args kwargs with
     | nil => rfl
     | cons e es =>
       exfalso
-      obtain ⟨i, _, h2⟩ := callReports_sound W fuel sg o args kwargs e (by rw [hr]; exact List.mem_cons_self)
-      rw [h i] at h2
-      cases h2
+      rcases callReports_sound W fuel sg o args kwargs e (by rw [hr]; exact List.mem_cons_self) with ⟨i, _, hi⟩ | hg
+      · rw [h1 i] at hi; cases hi
+      · rw [h2] at hg; cases hg
+
+/-! ### fuel
+
+Every theorem above is stated for every fuel; at fuel 0 (and whenever the fuel is smaller than the depth of a
+type) the model parser fails everything and the statements are true but say little.  The two theorems below
+make the fuel-independent reading precise: from `fuel ≥ depth` on, nothing depends on the fuel.  `Fits` excludes
+the one construct whose recursion depth follows the value instead of the type (a fixed tuple converting its
+surplus items with a typed `addition` option). -/
+
+/-- With fuel at least the depth of the type, the model parser is the fuel-independent one. -/
+theorem C10_fuel_adequate (W : World) (T : Ty) (c : Ctx) (v : Val) (hf : Fits c.o T) (fuel : Nat)
+    (hn : T.depth ≤ fuel) : parse W fuel T c v = parse W T.depth T c v :=
+  parse_fuel_adequate W T c v hf fuel hn
+
+/-- With fuel at least the depth of the declared types, a run of a declaration does not depend on the fuel. -/
+theorem C10_run_fuel_adequate (W : World) (decl : List FieldDecl) (m : Mode) (o : Opts) (data : Data)
+    (hf : ∀ T ∈ declTypes decl o, Fits o T) (fuel : Nat) (hn : declDepth decl o ≤ fuel) :
+    run W fuel decl m o data = run W (declDepth decl o) decl m o data :=
+  run_fuel_adequate W decl m o data hf fuel hn
 
 /-! ### the code before the `fix:` commit (AllOf returned without `raise_error()`)
 
@@ -323,6 +401,22 @@ example :
     errOf (runCall legacyWorld 3 { decl := demoDecl, npos := 3, hasVar := true, posTy := some (.leaf 1) }
         ⟨true, none⟩ {} [.atom "1", .atom "2", .atom "3", .atom "4"] [])
       = some (.collected [{ kind := .parse, item := some "a" }, { kind := .parse, item := some "*args:3" }]) := by
+  decide
+
+/-- the fuel hypotheses are satisfiable: `demoDecl` has depth 1, its options fit -/
+example : declDepth demoDecl {} = 1 ∧ ∀ T ∈ declTypes demoDecl {}, Fits {} T := by
+  refine ⟨by decide, ?_⟩
+  intro T _
+  exact Or.inl rfl
+
+/-- errors of the whole mapping: too many keys, and a demanded dependency that is not given — reported once each,
+without an item, next to the item errors -/
+example :
+    errOf (run legacyWorld 3
+        [{ name := "a", ty := some (.leaf 0), required := false, default := none, onError := none, deps := ["b"] },
+         { name := "b", ty := some (.leaf 0), required := false, default := none, onError := none }]
+        ⟨true, none⟩ { addition := .no, maxParams := some 1 } [("a", .atom "1"), ("zz", .atom "2")])
+      = some (.collected [{ kind := .paramsExceed }, { kind := .depsAbsence }, { kind := .exceed, item := some "zz" }]) := by
   decide
 
 end Utv.C10
